@@ -16,7 +16,7 @@ claimed = {
    ref="DESIGN.md section 6 C02"),
  "C03": dict(
    text="the library's real receive filter and sendto checks are run on k datagrams of symbolic length 0..2048 and content (broadcast route) or one such datagram (udp/tcp routes): a result implies a 64-byte datagram with the right protocol id, function code and serial number, it is the first such datagram, its content is what is decoded, anything else fails the call; SetAddress consumes nothing",
-   note="bounds: k <= 2 datagrams quick, <= 4 thorough (longer sequences argued from the loop being memoryless); representative operations GetCards, OpenDoor, GetStatus at the seam; socket level: GetCards through the real ut0311.SendUDP / SendTCP / BroadcastTo over the socket script (datagrams / TCP chunks of length 0..96, k <= 2, 3 thorough), replayed natively against a loopback peer. " + TRUST,
+   note="bounds: k <= 2 datagrams quick, <= 4 thorough (longer sequences argued from the loop being memoryless); representative operations GetCards, OpenDoor, GetStatus at the seam with content checks, all 30 reply-bearing operations with the accept/reject half (one datagram, broadcast and directed routes); socket level: GetCards through the real ut0311.SendUDP / SendTCP / BroadcastTo over the socket script (datagrams / TCP chunks of length 0..96, k <= 2, 3 thorough), replayed natively against a loopback peer. " + TRUST,
    ref="DESIGN.md section 6 C03"),
  "C04": dict(
    text="every runtime panic of the interpreted code (index and slice bounds, nil dereference, nil-map write, failed type assertion, division by zero, explicit panic, reflect misuse) is a solver obligation in the engine; the harnesses drive the 30 reply-bearing operations with an arbitrary reply of symbolic length 0..2048 on four routes (broadcast filter, UDP, TCP nil reply, transport error), then render the result with String() and JSON; plus the codec and dispatcher entry points, discovery and the listener's datagram handler on arbitrary byte strings, and arbitrary argument values",
@@ -28,7 +28,7 @@ claimed = {
    ref="DESIGN.md section 6 C05"),
  "C06": dict(
    text="routing decision executed symbolically over the device table (entry present or not, one unrelated entry), address validity, any IPv4 address and port, protocol strings of length 0,3,4 (1,2 thorough) with symbolic bytes, broadcast address valid or not: asserted which driver method is called, exactly once, with which endpoint",
-   note="seam level for the routing decision; socket level (the four ut0311 methods over the socket script, natively a loopback peer) for: exactly one socket, bound to the configured bind address/port (not configured, 0.0.0.0:0, 0.0.0.0:P, 127.0.0.1:P with P in 20000..29999), exactly one write of the unchanged request to the requested endpoint, nothing to any other endpoint, socket closed; IPv6 controller addresses are outside the property. " + TRUST,
+   note="seam level for the routing decision (GetTime, OpenDoor, SetAddress, GetDevices over the full configuration space; all 30 reply-bearing operations with one protocol-string length); socket level (the four ut0311 methods over the socket script, natively a loopback peer) for: exactly one socket, bound to the configured bind address/port (not configured, 0.0.0.0:0, 0.0.0.0:P, 127.0.0.1:P with P in 20000..29999), exactly one write of the unchanged request to the requested endpoint, nothing to any other endpoint, socket closed; IPv6 controller addresses are outside the property. " + TRUST,
    ref="DESIGN.md section 6 C06"),
  "C07": dict(
    text="one harness per operation with symbolic controller id and arguments; 'rejected' is observed as the transport call counter staying 0 and asserted equivalent to the documented rejection predicate (id 0; PutCard card/PIN/format rules incl. Wiegand-26 over all 2^32 numbers; SetListener over invalid/IPv4/16-byte address kinds; SetAddress over nil and length 0..16 IPs; SetDoorPasscodes doors; SetTimeProfile dates/segments)",
